@@ -676,8 +676,8 @@ def self_test():
 
 
 SUBCHECKS = [
-    SubCheck("border", border_case(), fn_border, quick=4000, thorough=2500),
-    SubCheck("features", feature_case(), fn_features, quick=6000, thorough=4000),
+    SubCheck("border", border_case(), fn_border, quick=3000, thorough=2500),
+    SubCheck("features", feature_case(), fn_features, quick=5000, thorough=4000),
     SubCheck("border_large", border_case(big=True), fn_border, quick=160, thorough=400, watchdog=(60, 240)),
     SubCheck("features_large", feature_case(big=True), fn_features, quick=240, thorough=600, watchdog=(60, 240)),
 ]
